@@ -38,6 +38,7 @@ var generators = map[string]genFunc{
 	"duelown":   GenDuelOwn,
 	"dueldrain": GenDuelDrain,
 	"duelprobe": GenDuelProbe,
+	"duelstop":  GenDuelStop,
 }
 
 type runSummary struct {
